@@ -1443,6 +1443,11 @@ def canon(expr, params=(), rename=None, consts=None):
                     and len(e.args[0].args) == 1 and not e.args[0].keywords and fn not in ('len', 'np.array', 'np.asarray'):
                 # sorted(list(x), ..) is sorted(x, ..): the consumer walks its argument once anyway
                 e = ast.Call(func=e.func, args=[e.args[0].args[0]] + list(e.args[1:]), keywords=e.keywords)
+            if fn in ('sorted', 'min', 'max', 'any', 'all', 'tuple', 'set', 'list', 'frozenset', 'enumerate', 'len', 'sum') and e.args \
+                    and isinstance(e.args[0], ast.Call) and isinstance(e.args[0].func, ast.Attribute) and e.args[0].func.attr == 'keys' \
+                    and not e.args[0].args and not e.args[0].keywords:
+                # walking d.keys() is walking d
+                e = ast.Call(func=e.func, args=[e.args[0].func.value] + list(e.args[1:]), keywords=e.keywords)
             if isinstance(e.func, ast.Attribute) and e.func.attr == 'join' and len(e.args) == 1 and not e.keywords and isinstance(e.args[0], ast.ListComp):
                 # sep.join([..]) is sep.join(..)
                 e = ast.Call(func=e.func, args=[ast.GeneratorExp(elt=e.args[0].elt, generators=e.args[0].generators)], keywords=[])
@@ -1636,7 +1641,9 @@ def canon(expr, params=(), rename=None, consts=None):
             if isinstance(x, ast.Call) and isinstance(x.func, ast.Attribute) and x.func.attr == 'copy' and not x.args and not x.keywords:
                 return c(x.func.value)
             if isinstance(x, ast.Call) and isinstance(x.func, ast.Name) and x.func.id == 'list' and len(x.args) == 1 and not x.keywords:
-                return c(x.args[0])
+                return it(x.args[0])
+            if isinstance(x, ast.Call) and isinstance(x.func, ast.Attribute) and x.func.attr == 'keys' and not x.args and not x.keywords:
+                return c(x.func.value)
             return c(x)
         if isinstance(e, ast.ListComp) and len(e.generators) == 1 and not e.generators[0].ifs and isinstance(e.elt, ast.Name) \
                 and isinstance(e.generators[0].target, ast.Name) and e.elt.id == e.generators[0].target.id:
